@@ -127,6 +127,8 @@ pub enum E {
     Delay(u32, u32, Box<E>, Box<E>),
     Now,
     SampleRate,
+    /// `match scrutinee { k0 => e0  k1 => e1  _ => d }` on a number with integer-literal arms
+    MatchNum(Box<E>, Vec<(i64, E)>, Box<E>),
     /// verbatim source text (used by type-changing mutations)
     Raw(String),
 }
@@ -183,6 +185,7 @@ pub struct Features {
     pub tuples: u32,
     pub records: u32,
     pub branches: u32,
+    pub matches: u32,
     pub pipes: u32,
     pub nodes: u32,
     pub fns: u32,
@@ -220,6 +223,7 @@ impl Features {
         f!(self.tuples > 0, "f:tuple");
         f!(self.records > 0, "f:record");
         f!(self.branches > 0, "f:branch");
+        f!(self.matches > 0, "f:match");
         f!(self.pipes > 0, "f:pipe");
         c
     }
@@ -279,6 +283,8 @@ pub struct PCfg {
     pub if_in_lambda: bool,
     /// maker functions may be called inside functions (a closure instance per sample), C12
     pub makers_in_dsp: bool,
+    /// `match` on a number with integer-literal arms
+    pub num_match: bool,
     /// nested tuple types (e.g. `(float,(float,float))`) for parameters, returns and `self`
     pub nested_tuples: bool,
 }
@@ -317,6 +323,7 @@ impl Default for PCfg {
             capture_in_branch: true,
             if_in_lambda: true,
             makers_in_dsp: false,
+            num_match: true,
             nested_tuples: false,
         }
     }
@@ -545,6 +552,7 @@ impl<'a> PG<'a> {
             1,                                                   // 16 comparison / logic as value
             if self.cfg.makers_in_dsp && !sc.in_lambda && self.fns.iter().any(|f| f.maker) { 3 } else { 0 }, // 17 per-sample maker instance
             if self.cfg.nested_tuples && tuple_callees.is_empty().not() { 4 } else { 0 }, // 18 destructure a tuple-returning call
+            if self.cfg.num_match && !(sc.in_lambda && !self.cfg.if_in_lambda) { 2 } else { 0 }, // 19 match on a number
         ];
         match self.g.weighted(&w) {
             0 => self.leaf_num(sc),
@@ -652,6 +660,23 @@ impl<'a> PG<'a> {
                 let body = self.num(&mut inner);
                 let id = self.id();
                 E::Pipe(id, Box::new(x), Box::new(E::Lam(vec![Param { name: pname, ty: Ty::Num, annotate: false }], Box::new(body))))
+            }
+            19 => {
+                self.feat.matches += 1;
+                self.feat.branches += 1;
+                let was_op = sc.in_operand;
+                sc.in_operand = true;
+                let scrut = self.num(sc);
+                sc.in_operand = was_op;
+                let keys = [0i64, 1, 2, 3, 5];
+                let n = self.g.int(1, 3) as usize;
+                let start = self.g.usize_below(3);
+                let was = sc.in_branch;
+                sc.in_branch = true;
+                let arms: Vec<(i64, E)> = (0..n).map(|i| (keys[start + i], self.num(sc))).collect();
+                let d = self.num(sc);
+                sc.in_branch = was;
+                E::MatchNum(Box::new(scrut), arms, Box::new(d))
             }
             18 => {
                 // { let (a, (b, c)) = f(args)  a + c }
@@ -820,10 +845,13 @@ impl<'a> PG<'a> {
                 sc.in_tuple_lit = true;
                 let es = ts
                     .iter()
-                    .map(|t| {
+                    .enumerate()
+                    .map(|(i, t)| {
                         self.fuel = 2;
                         match t {
                             Ty::Num => self.small_num(sc),
+                            // only the first element sits inside the lookahead window
+                            other if i == 0 => self.short_first(other, sc),
                             other => self.expr(other, sc),
                         }
                     })
@@ -844,6 +872,23 @@ impl<'a> PG<'a> {
                 E::SelfV
             }
             _ => self.block(&ty, sc),
+        }
+    }
+
+    /// a non-scalar first element of a tuple literal: a variable, or a literal of leaves
+    /// (the comma after it must fall inside the parser's 20-token lookahead)
+    fn short_first(&mut self, ty: &Ty, sc: &mut Scope) -> E {
+        let vars = self.vars_of(sc, ty);
+        if !vars.is_empty() && self.g.bool(1, 2) {
+            return E::Var(self.g.pick(&vars).name.clone());
+        }
+        match ty {
+            Ty::Num => self.leaf_num(sc),
+            Ty::Tup(ts) => {
+                self.feat.tuples += 1;
+                E::Tup(ts.iter().map(|t| self.short_first(t, sc)).collect())
+            }
+            other => self.expr(other, sc),
         }
     }
 
@@ -1359,6 +1404,23 @@ fn render_e_inner(e: &E, lay: &Layout, level: usize, out: &mut String, cn: &mut 
         }
         E::Now => out.push_str("now"),
         E::SampleRate => out.push_str("samplerate"),
+        E::MatchNum(sc, arms, d) => {
+            out.push_str("match ");
+            render_sub(sc, lay, level, out, cn);
+            out.push_str(" {\n");
+            for (k, e) in arms {
+                ind(out, lay, level + 1);
+                let _ = write!(out, "{k} => ");
+                render_branch(e, lay, level + 1, out, cn);
+                out.push('\n');
+            }
+            ind(out, lay, level + 1);
+            out.push_str("_ => ");
+            render_branch(d, lay, level + 1, out, cn);
+            out.push('\n');
+            ind(out, lay, level);
+            out.push('}');
+        }
         E::Raw(t) => out.push_str(t),
     }
 }
@@ -1424,6 +1486,11 @@ pub fn visit_mut(e: &mut E, f: &mut dyn FnMut(&mut E)) {
         E::Delay(_, _, x, t) => {
             visit_mut(x, f);
             visit_mut(t, f);
+        }
+        E::MatchNum(sc, arms, d) => {
+            visit_mut(sc, f);
+            arms.iter_mut().for_each(|(_, x)| visit_mut(x, f));
+            visit_mut(d, f);
         }
     }
 }
@@ -1573,6 +1640,11 @@ fn rename_e(e: &mut E, f: &dyn Fn(&str) -> String) {
         E::Delay(_, _, x, t) => {
             rename_e(x, f);
             rename_e(t, f);
+        }
+        E::MatchNum(sc, arms, d) => {
+            rename_e(sc, f);
+            arms.iter_mut().for_each(|(_, x)| rename_e(x, f));
+            rename_e(d, f);
         }
     }
 }
